@@ -27,6 +27,8 @@ pub struct RxCtrState {
 }
 
 impl RxCtrState {
+    // Only group senders (trust-first) and the tests start from a known counter
+    #[cfg_attr(not(feature = "groups"), allow(dead_code))]
     pub const fn new(max_ctr: u32) -> Self {
         Self {
             max_ctr,
